@@ -313,6 +313,9 @@ def run(idx, rep, tier):
     rep.floor("scale-homogeneity", 3)
     rep.floor("column-independence", 2)
     rep.floor("iteration-count", 1)
+    # ---- tolerance, cap, start vector and preconditioner reach the iteration from every entry point
+    from sa.autorule import passthrough_in
+    passthrough_in(idx, rep, ("inverse.cg", ), ("CG", ), ("tol", "max_iters", "x0", "P"), 12)
     rep.explanation = ("LOOP + DEP: cap conjunct k < max_iters with k from 0 by +1 per body; the loop continues while any column's residual norm exceeds tol' = tol*||r0|| + tol; the "
                        "right-hand side is divided by its column norms and solution / residual are multiplied back by the same array; every reduction on the CG state is over the "
                        "row axis; the iteration counter reported in info must advance once per body execution.")
